@@ -137,6 +137,103 @@ func main() {
 			}
 		}
 	}
+	// the lemmas of coq/GenProofs evaluated directly on the implementation (search for a failing input when a
+	// proof over the regenerated definitions no longer checks)
+	propFails := 0
+	pf := func(format string, a ...any) {
+		if propFails < 5 {
+			fmt.Printf("GENCHECK-PROPERTY-FAIL "+format+"\n", a...)
+		}
+		propFails++
+	}
+	for _, name := range strings.Split(*names, ",") {
+		switch name {
+		case "GasLimit":
+			rr := hx.NewRand(*seed + 77)
+			for i := 0; i < *n; i++ {
+				p := uint64(1_000_000) + rr.Uint64()%(1<<uint(20+rr.Intn(43)))
+				var g uint64
+				switch rr.Intn(6) {
+				case 0:
+					g = p + p/1024 + uint64(rr.Intn(3)) - 1
+				case 1:
+					g = p - p/1024 + uint64(rr.Intn(3)) - 1
+				case 2: // far steps: multiples of large powers of two plus a small step (wrap-prone rewrites)
+					g = p + (uint64(1+rr.Intn(7)) << uint(40+rr.Intn(24))) + rr.Uint64()%(p/1024+1)
+				case 3:
+					g = rr.Uint64()
+				case 4:
+					g = p + rr.Uint64()%(p/1024+2)
+				default:
+					g = p - rr.Uint64()%(p/1024+2)
+				}
+				diff := g - p
+				if p > g {
+					diff = p - g
+				}
+				want := g >= 1_000_000 && diff <= p/1024
+				if got := block.GasLimit(g).IsValid(p); got != want {
+					pf("is_valid_spec gasLimit=%d parent=%d IsValid=%v but floor-and-step-rule=%v", g, p, got, want)
+				}
+				t := rr.Uint64()
+				if q := block.GasLimit(t).Qualify(p); !block.GasLimit(q).IsValid(p) {
+					pf("qualify_is_valid target=%d parent=%d Qualify=%d is rejected by IsValid", t, p, q)
+				}
+			}
+		case "Sequence":
+			rr := hx.NewRand(*seed + 78)
+			var prev int64 = -1
+			var pb, pt, pl uint32
+			for i := 0; i < *n; i++ {
+				b, t, l := uint32(rr.Uint64())%(1<<28), uint32(rr.Uint64())%(1<<15), uint32(rr.Uint64())%(1<<20)
+				if rr.Chance(1, 4) {
+					b, t = pb, pt
+				}
+				s, ok := logdb.VerifNewSequence(b, t, l)
+				if !ok {
+					pf("new_sequence_value in-range (%d,%d,%d) rejected", b, t, l)
+					continue
+				}
+				bb, tt, ll := logdb.VerifSequenceFields(s)
+				if bb != b || tt != t || ll != l || s < 0 {
+					pf("accessors_invert (%d,%d,%d) -> %d -> (%d,%d,%d)", b, t, l, s, bb, tt, ll)
+				}
+				if prev >= 0 {
+					lexLess := pb < b || (pb == b && (pt < t || (pt == t && pl < l)))
+					if lexLess != (prev < s) {
+						pf("pack_lex_lt (%d,%d,%d)=%d vs (%d,%d,%d)=%d", pb, pt, pl, prev, b, t, l, s)
+					}
+				}
+				prev, pb, pt, pl = s, b, t, l
+			}
+		case "Epoch":
+			rr := hx.NewRand(*seed + 79)
+			for i := 0; i < *n; i++ {
+				L := uint32(1 + rr.Intn(400))
+				thor.SetConfig(thor.Config{EpochLength: L})
+				num := uint32(rr.Intn(1 << 24))
+				cp, sp := bft.VerifGetCheckPoint(num), bft.VerifGetStorePoint(num)
+				if cp > num || num-cp >= L || cp%L != 0 || sp != cp+L-1 || bft.VerifIsCheckPoint(num) != (num%L == 0) || !bft.VerifIsCheckPoint(sp+1) {
+					pf("checkpoint_spec L=%d num=%d checkpoint=%d storepoint=%d", L, num, cp, sp)
+				}
+			}
+		case "PoolSync":
+			rr := hx.NewRand(*seed + 80)
+			for i := 0; i < *n; i++ {
+				T := []uint64{10, 1, 3, 60}[rr.Intn(4)]
+				thor.SetConfig(thor.Config{BlockInterval: T})
+				now := 1_000_000 + rr.Uint64()%(1<<40)
+				blk := now + uint64(int64(rr.Intn(40))-20)*T/2
+				d := now - blk
+				if blk > now {
+					d = blk - now
+				}
+				if txpool.VerifIsChainSynced(now, blk) != (d < 6*T) {
+					pf("is_chain_synced_iff T=%d now=%d block=%d", T, now, blk)
+				}
+			}
+		}
+	}
 	got, err := hx.AskAll(*oracle, lines)
 	if err != nil {
 		fmt.Fprintln(os.Stderr, "gencheck: oracle:", err)
@@ -151,8 +248,8 @@ func main() {
 			bad++
 		}
 	}
-	fmt.Printf("gencheck: %d evaluations, %d mismatches\n", len(lines), bad)
-	if bad > 0 {
+	fmt.Printf("gencheck: %d evaluations, %d mismatches, %d property failures on the implementation\n", len(lines), bad, propFails)
+	if bad > 0 || propFails > 0 {
 		os.Exit(1)
 	}
 }
